@@ -126,6 +126,89 @@ func c06(x *ctx) {
 							desc: fmt.Sprintf("%s line inserted after line %d of %s", ename, k+1, p.Name)})
 					}
 				}
+				// consistent widening: every literal with the same text is widened together, so that literal
+				// hash keys / index arguments keep denoting the same key (covers literals inside brackets)
+				byText := map[string][]gen.StrLit{}
+				var texts []string
+				for _, s := range lo.Strings {
+					lt := lo.Lines[s.Line].Text
+					after := strings.TrimLeft(lt[s.End:], " ")
+					if strings.HasPrefix(after, ":") && !strings.HasPrefix(after, "::") {
+						continue // "key": symbol-style key
+					}
+					t := lt[s.Start:s.End]
+					if _, ok := byText[t]; !ok {
+						texts = append(texts, t)
+					}
+					byText[t] = append(byText[t], s)
+				}
+				for _, t := range texts {
+					group := byText[t]
+					inBrackets := false
+					for _, s := range group {
+						lt := lo.Lines[s.Line].Text
+						if strings.Count(lt[:s.Start], "[") > strings.Count(lt[:s.Start], "]") {
+							inBrackets = true
+						}
+					}
+					if !inBrackets || len(t) <= 2 {
+						continue // plain literals are covered one by one below
+					}
+					nStr++
+					for _, n := range []int{1, 3} {
+						n := n
+						cnt := map[int]int{} // 0-based line -> widened literals on it
+						for _, s := range group {
+							cnt[s.Line]++
+						}
+						// variant source: process each line's literals right to left
+						var sb strings.Builder
+						for li, l := range lo.Lines {
+							text := l.Text
+							var onLine []gen.StrLit
+							for _, s := range group {
+								if s.Line == li {
+									onLine = append(onLine, s)
+								}
+							}
+							for k := len(onLine) - 1; k >= 0; k-- {
+								s := onLine[k]
+								text = text[:s.End-1] + strings.Repeat("\n", n) + text[s.End-1:]
+							}
+							sb.WriteString(text)
+							if li < len(lo.Lines)-1 || lo.FinalNL {
+								sb.WriteString("\n")
+							}
+						}
+						// label of each base row / each variant row
+						baseLabel := map[int]string{}
+						varLabel := map[int]string{}
+						shift := 0
+						for b := 1; b <= len(lo.Lines)+2; b++ {
+							c := cnt[b-1]
+							lab := fmt.Sprint(b + shift)
+							if c > 0 {
+								lab = fmt.Sprintf("*%d", b)
+							}
+							baseLabel[b] = lab
+							for v := b + shift; v <= b+shift+n*c; v++ {
+								varLabel[v] = lab
+							}
+							shift += n * c
+						}
+						relabel := func(o string, labels map[int]string) string {
+							return strings.ReplaceAll(mapRowsLabel(o, file, labels), "\\n", "")
+						}
+						emit(&mItem{baseKey: bkey, base: base,
+							variant: &engine.Case{Files: map[string]string{p.Name: sb.String()}, Argv: argv},
+							expect:  func(b string) string { return relabel(b, baseLabel) },
+							norm:    func(o string) string { return relabel(o, varLabel) },
+							sig: func(b, v string) string {
+								return fmt.Sprintf("widen-all-equal-strings:+%d:%s@%s:%s", n, diffClass(relabel(b, baseLabel), relabel(v, varLabel)), file, head(t, 20))
+							},
+							desc: fmt.Sprintf("%d newline(s) added inside every literal %s of %s (%d occurrences)", n, t, p.Name, len(group))})
+					}
+				}
 				for _, s := range lo.Strings {
 					// ti tracks the value of literal hash keys / index arguments: widening such a literal
 					// changes the program's meaning, so literals next to `[`, `]`, `=>`, `:` or inside a
@@ -163,6 +246,45 @@ func c06(x *ctx) {
 		"edits": len(edits), "modes": len(modes)}
 	r.Sample(map[string]any{"edit": "insert `# c` after line 3", "program": progs[0].Name, "oracle": "rows > 3 shift by 1, everything else identical"})
 	r.Sample(map[string]any{"edit": "strip final newline", "program": progs[len(progs)/2].Name})
+}
+
+// mapRowsLabel replaces the row of every record of `file` by labels[row] (rows without a label keep their number).
+func mapRowsLabel(out, file string, labels map[int]string) string {
+	if out == "" {
+		return out
+	}
+	lines := strings.Split(out, "\n")
+	for i, l := range lines {
+		pfx, rest := "", l
+		if strings.HasPrefix(rest, "@") {
+			pfx, rest = "@", rest[1:]
+		}
+		if !strings.HasPrefix(rest, file+":::") {
+			continue
+		}
+		rest2 := rest[len(file)+3:]
+		j := strings.Index(rest2, ":::")
+		if j <= 0 {
+			continue
+		}
+		row, ok := 0, true
+		for _, c := range rest2[:j] {
+			if c < '0' || c > '9' {
+				ok = false
+				break
+			}
+			row = row*10 + int(c-'0')
+		}
+		if !ok {
+			continue
+		}
+		lab, has := labels[row]
+		if !has {
+			lab = fmt.Sprint(row)
+		}
+		lines[i] = fmt.Sprintf("%s%s:::%s%s", pfx, file, lab, rest2[j:])
+	}
+	return strings.Join(lines, "\n")
 }
 
 // dropRowOn blanks the row number of records whose row lies in [lo,hi] (same-row records of a widened literal).
